@@ -31,6 +31,10 @@ CLAIMED = {
          "and proved equal to the model (bridge lemma); session-level invariant: live messages never share an id, a publish whose fresh id is in use is refused and changes nothing; correspondence run against the real client.",
     ref="4.14", technique="Coq proof (induction + lia) over a model translated from the source on every run; differential correspondence",
     note="Trusted: Coq kernel, py2v translator, harness. Thread-level exclusion (C14.3) rests on threading.Lock semantics; the threaded run is a test."),
+ "C20": dict(
+    text="Proof: the helper callback programs of publish.py/subscribe.py are modelled statement by statement over userdata; for message lists and inbound sequences of any length: under the client's interface guarantees (one on_publish per accepted publish - C01/C06; one on_message per delivery in order - C03/C15) multiple()/single() issue exactly the given publishes in list order then one disconnect; for ARBITRARY callback sequences the published messages are a prefix of the list, none twice, disconnect only after all; simple() returns firstn msg_count of the messages passing the retained filter (single object iff msg_count = 1), disconnects exactly at the msg_count-th, ignores the rest; callback() hands every message to the user callback once in order. The real helpers are run end to end (tcp and websockets, MQTT 3.1.1 and 5) against an in-memory conforming broker and compared with the extracted model.",
+    ref="4.20", technique="Coq proof over a statement-level model of the helper callbacks (induction over lists); end-to-end differential execution of the real helpers",
+    note="Trusted: Coq kernel, extraction+driver, harness incl. the in-memory broker. The theorems assume the client-level guarantees cited (C01, C03, C06, C09/C10, C15), which are other properties of this set; TLS/proxy options are passed through only."),
 }
 PENDING = {}
 for i in range(1, 21):
